@@ -96,6 +96,10 @@ func c15Build(n int) *c15Doc {
 		return d
 	}
 	d.hasPath = true
+	if vrfBool("path.ref") {
+		// a path item may carry a $ref beside its own operations and parameters
+		d.pi.Ref = spec.MustCreateRef("#/x-shared/pathitem")
+	}
 	d.pi.Parameters = c15Params("pathparams", n)
 	if vrfBool("get") {
 		d.get = &spec.Operation{}
